@@ -800,3 +800,58 @@ Proof.
   destruct (invariant_monotone d0 h T M F) as [[A B C D E G H] I J K L N].
   repeat split; try assumption; apply H.
 Qed.
+
+(* ------------------------------------------------------------------ *)
+(* routing glue: a routing history acts on the accessor exactly as its  *)
+(* projection (Req/Resp of a transaction = Get of its transaction id)    *)
+
+Lemma racc_step s a : acc (fst (rstep s a)) = fst (step (acc s) (proj a)).
+Proof.
+  destruct a as [a|id seq now|id seq status now]; cbn [rstep proj].
+  - destruct (step (acc s) a) as [s' o]. reflexivity.
+  - rewrite step_get. reflexivity.
+  - rewrite step_get. destruct (get (acc s) id now) as [s' o].
+    destruct (dispatch_resp (alive s) id seq status (o_data o)). reflexivity.
+Qed.
+
+Lemma racc_after h : forall s, acc (rafter s h) = after (acc s) (map proj h).
+Proof.
+  induction h as [|a h IH]; intros s; [reflexivity|].
+  change (rafter s (a :: h)) with (rafter (fst (rstep s a)) h).
+  rewrite IH, racc_step. reflexivity.
+Qed.
+
+Lemma rstep_resp s id seq status now :
+  snd (rstep s (Resp id seq status now)) =
+  snd (dispatch_resp (alive s) id seq status (o_data (snd (get (acc s) id now)))).
+Proof.
+  cbn [rstep]. destruct (get (acc s) id now) as [s' o]. cbn [snd].
+  destruct (dispatch_resp (alive s) id seq status (o_data o)). reflexivity.
+Qed.
+
+Lemma response_uses_request_version d0 pre id seq t0 mid seq' status t :
+  monotone (map proj (pre ++ Req id seq t0 :: mid ++ [Resp id seq' status t])) ->
+  lookup id (pins (acc (rafter (rinit d0) pre))) = None ->
+  t <= t0 + ttl ->
+  let s1 := rafter (rinit d0) pre in
+  let s3 := rafter (fst (rstep s1 (Req id seq t0))) mid in
+  let D := last_data d0 (map proj pre) in
+  snd (get (acc s3) id t)
+    = {| o_ver := cur (acc s1); o_data := Some D; o_fallback := false |} /\
+  snd (rstep s3 (Resp id seq' status t))
+    = snd (dispatch_resp (alive s3) id seq' status (Some D)).
+Proof.
+  intros M P Ht s1 s3 D.
+  rewrite map_app in M. cbn [map proj] in M. rewrite map_app in M. cbn [map proj] in M.
+  assert (acc s1 = after (init d0) (map proj pre)) as E1.
+  { unfold s1. rewrite racc_after. reflexivity. }
+  assert (acc s3 = after (fst (get (acc s1) id t0)) (map proj mid)) as E3.
+  { unfold s3. rewrite racc_after, racc_step. cbn [proj]. rewrite step_get. reflexivity. }
+  fold s1 in P. rewrite E1 in P.
+  destruct (pinned_monotone d0 (map proj pre) id t0 (map proj mid) t M P Ht) as [H2 H1].
+  cbn zeta in H1, H2. rewrite <- E1 in H1, H2. rewrite <- E3 in H2.
+  assert (snd (get (acc s3) id t)
+          = {| o_ver := cur (acc s1); o_data := Some D; o_fallback := false |}) as G.
+  { rewrite H2, H1. reflexivity. }
+  split; [exact G|]. rewrite rstep_resp, G. reflexivity.
+Qed.
